@@ -7,6 +7,7 @@ import YardlModel.Proto
 import YardlModel.Schema
 import YardlModel.Json
 import YardlModel.Plan
+import YardlModel.SyntaxJson
 
 /-! Line-protocol driver for the wire engine: one JSON request per line on stdin, one JSON
     reply per line on stdout. -/
@@ -408,6 +409,22 @@ def handle (j : Json) : Except String Json := do
         | .ok vj => do pure (Json.str (toHex (enc t (← valOfJson vj))))
         | .error _ => pure Json.null
       pure (Json.mkObj [("plan", Schema.tyToJson t), ("hex", hex)])
+  | "syntax" =>
+    -- the tree the front end builds for a YAML type node (raw and as consumers see it), and whether the
+    -- node is a spelling of the given surface type (hypothesis of spellings_build_the_same_tree)
+    let y ← Syntax.yOfJson (← j.getObjVal? "y")
+    let raw := match Syntax.convY y with
+      | some t => Syntax.tToJson t
+      | none => Json.null
+    let sem := match Syntax.sem y with
+      | some t => Syntax.tToJson t
+      | none => Json.null
+    let sp ← match j.getObjVal? "sur" with
+      | .ok sj => do
+        let t ← Syntax.surOfJson sj
+        pure (Json.mkObj [("is_spelling", Json.bool (Syntax.isSpelling t y)), ("tree_of_sur", Syntax.tToJson (Syntax.tree t))])
+      | .error _ => pure Json.null
+    pure (Json.mkObj [("raw", raw), ("sem", sem), ("sur", sp)])
   | "narrow" =>
     let b ← jNat (← j.getObjVal? "bits")
     pure (Json.mkObj [("f32", jn (Json.narrow b))])
